@@ -224,7 +224,7 @@ def check(run):
         fmap = site_functions(libs[v], want)
         nsites += len(fmap)
         for st, fn in sorted(fmap.items()):
-            if fn not in info["touching"] and "corr:unmodelled-acquisition" not in seen_sig:
+            if fn not in info["touching"] and "corr:unmodelled-acquisition" not in seen_sig and not getattr(run, "using_reference", False):
                 seen_sig.add("corr:unmodelled-acquisition")
                 run.violation("corr:unmodelled-acquisition", "correspondence", "an acquisition observed at run time at %s is made by %s, which the translator does not list among the functions that reach an acquisition/release function"
                               % (addr2line(libs[v], st), fn), {"failing_input": {"site": addr2line(libs[v], st), "function": fn, "variant": v}})
